@@ -35,6 +35,11 @@ Inductive case :=
    interpreter that also comes back from Run as "TypeError: ...", 90 the
    operand's own exception, 8 anything else) and the log of conversions *)
 | COrder (op : Z) (l : lop) (r : rop) (obs : Z * list Z)
+(* evaluation order when both an early and a late error are possible: scenario id;
+   observed (class of the error: e.name, instanceof, prototype, Error() all agreeing,
+   90 for an operand's own exception; which marked token the innermost frame is
+   positioned at, 0 = none; log of side effects) *)
+| CEval (id : Z) (obs : Z * Z * list Z)
 (* file.FileSet.Position over several files *)
 | CFileSet (files : list (list Z)) (idx : Z) (obs : option (Z * Z * Z)).
 
@@ -64,6 +69,8 @@ Definition cl_term := 6.
 Definition cl_char := 7.
 Definition cl_text := 8.
 Definition cl_nofile := 9.
+Definition cl_newargs := 12.
+Definition cl_member_tostring := 13.
 (* 10 (RegExp pattern TypeError, ef38bfe) and 11 (FileSet.Position, 6df0226) are repaired in /repo *)
 
 Definition with_fix (i : Z) : fixes :=
@@ -136,6 +143,13 @@ Definition arg_expect (throws msg : bool) : list Z :=
 
 Definition verdict (c : case) : Z * Z :=
   match c with
+  | CEval id obs =>
+      match spec_eval id, model_eval id with
+      | Some sp, Some mo =>
+          judge (fun a b => (fst (fst a) =? fst (fst b)) && (snd (fst a) =? snd (fst b)) && zlist_eqb (snd a) (snd b))
+                obs mo sp (if (id =? 4) || (id =? 45) then cl_newargs else cl_member_tostring)
+      | _, _ => declined
+      end
   | COrder op l r obs =>
       judge (fun a b => (fst a =? fst b) && zlist_eqb (snd a) (snd b)) obs (model_order op l r) (spec_order op l r) 0
   | CArg fn a obs =>
